@@ -489,7 +489,7 @@ class GeoPolygon(PolygonBase, SimpleShapeMixin):
         if len(rings) > 1:
             holes = [GeoPolygon(ring) for ring in rings[1:]]
 
-        properties = gjson.get('properties', {})
+        properties = dict(gjson.get('properties') or {})
         dt = get_dt_from_geojson_props(
             properties,
             time_start_property,
@@ -1475,7 +1475,7 @@ class GeoLineString(SingleShapeBase, LineLikeMixin, SimpleShapeMixin):
             Coordinate(**dict(zip(('longitude', 'latitude', 'z'), x)))
             for x in geom.get('coordinates', [])
         ]
-        properties = gjson.get('properties', {})
+        properties = dict(gjson.get('properties') or {})
         dt = get_dt_from_geojson_props(
             properties,
             time_start_property,
@@ -1716,7 +1716,7 @@ class GeoPoint(SingleShapeBase, PointLikeMixin, SimpleShapeMixin):
             )
 
         coord = Coordinate(**dict(zip(('longitude', 'latitude', 'z'), geom['coordinates'])))
-        properties = gjson.get('properties', {})
+        properties = dict(gjson.get('properties') or {})
         dt = get_dt_from_geojson_props(
             properties,
             time_start_property,
